@@ -175,6 +175,23 @@ func (k *keyManagementContext) generateNewDHKeyPair(randomness io.Reader) error 
 	return nil
 }
 
+// forgetCountersBefore drops the counters of key pairs that involve a key older
+// than the given ids: those keys are gone and no message can use them again
+func (h *counterHistory) forgetCountersBefore(ourKeyID, theirKeyID uint32) {
+	kept := h.counters[:0]
+	for _, c := range h.counters {
+		if c.ourKeyID < ourKeyID || c.theirKeyID < theirKeyID {
+			c.wipe()
+			continue
+		}
+		kept = append(kept, c)
+	}
+	for i := len(kept); i < len(h.counters); i++ {
+		h.counters[i] = nil
+	}
+	h.counters = kept
+}
+
 func (k *keyManagementContext) revealMACKeysForOurPreviousKeyID() {
 	keys := k.macKeyHistory.forgetMACKeysForOurKey(k.ourKeyID - 1)
 	k.oldMACKeys = append(k.oldMACKeys, keys...)
@@ -185,6 +202,10 @@ func (c *Conversation) rotateKeys(dataMessage dataMsg) error {
 		return err
 	}
 	c.keys.rotateTheirKey(dataMessage.senderKeyID, dataMessage.y)
+
+	if c.keys.ourKeyID > 0 && c.keys.theirKeyID > 0 {
+		c.keys.counterHistory.forgetCountersBefore(c.keys.ourKeyID-1, c.keys.theirKeyID-1)
+	}
 
 	return nil
 }
